@@ -1,20 +1,46 @@
-"""A small translator from a subset of Python (the arithmetic / bit-twiddling cores of han/*.py) to Lean 4
-`Id.run do` blocks.  Its output, lean/Amshan/GeneratedCode{Fcs,BackOff,P1,Hdlc}.lean, is REGENERATED from the working tree on every
+"""A small translator from a subset of Python (the arithmetic / bit-twiddling cores of han/*.py) to Lean 4 terms.
+Its output, lean/Amshan/GeneratedCode{Fcs,BackOff,P1,Hdlc}.lean, is REGENERATED from the working tree on every
 run; Props/*Gen.lean prove each generated definition equal to the hand-written model, so for these functions
 the tie between model and code is a kernel-checked theorem about a mechanical translation of the source, not a
-sample.  Supported: int/bool/list/Optional[int] values, bytes/bytearray (as `List Nat`), Optional[bytes] (as
-`Option (List Nat)`), Optional[bool], assignments (plain and augmented), if/else, for over
-range(...) or a list, return, list.append, len/max/min, indexing and slicing (total: out-of-range index = 0 —
-the theorems state the guards; `x[a:-k]` with a literal k), comparisons (`opt == int` is `opt == some int`, as
-`None == 3` is False), and/or/not, conditional expressions, `is (not) None`, `cast(int, x)`, `bytes(x)`,
-`bytearray()`, calls of other translated functions, and `while True:` without break (the last statement of
-its block; see `Fn.while_true`).  Logging calls and docstrings are dropped.  Anything else raises Unsupported: the check then reports the
-function as untranslatable (an obligation that no longer checks)."""
+sample.
+
+The translation is a symbolic execution of the function body into a PURE term, built so that behaviour-preserving
+rewrites of the source give the same (or a more uniform) term:
+
+  * every local is substituted by its value (no `let` for temporaries: introducing, removing or renaming a
+    temporary does not change the output; locals that are never read disappear); `x op= e` is `x = x op e`;
+  * an `if` statement whose branches only assign becomes, per variable, `if c then a else b` (the same term as a
+    conditional expression; a variable with the same value on both sides is not touched); an `if` with a `return`
+    (or a loop) in a branch becomes `if c then <branch; rest> else <other branch; rest>`, so `if a: return x` +
+    `return y`, `if a: return x else: return y` and `return x if a else y` coincide;
+  * `for` loops (no break / continue / return inside) become `List.foldl` over the list or `List.range' lo (hi - lo)`.
+    The fold state is the variables assigned in the body, in order of first assignment in the function; components
+    that are neither read after the loop nor needed by a component that is (loop-local temporaries, dead stores)
+    are pruned, and a loop variable is just the bound item (`_` when unused);
+  * expressions are canonicalised: chains of an associative-commutative operator (`^ & | + *`) are flattened and
+    their operands ordered (literals last, folded), operands of `==` are ordered, `a > b` is `b < a`, `a >= b` is `b <= a`, `!=` is `not ==`, `x is None` is `not (x is not None)`,
+    Booleans are built from `<`, `==`, `and`, `not` only (`a <= b` is `not b < a`, `a or b` is `not (not a and not
+    b)`: terms equal by De Morgan or the total order coincide; the printer writes `≤` and `||` again), comparisons
+    with a literal k are `k < x` or its negation (`x >= 2`, `x > 1`, `not x < 2` are all `1 < x`), `if not c then a
+    else b` is `if c then b else a`, nested `if`s that share a branch are one `if` of an `and`, operands of `and` /
+    `max` / `min` are ordered, truthiness of `len(x)` / a list is `0 < len`, `x % 2` is `x & 1`, `(x & 1) == 1` is
+    `(x & 1) != 0`, `a[0:n]` is `a[:n]`, literal arithmetic is folded, `True if c else False` is `c`.
+
+Supported: int/bool/list/Optional[int] values, bytes/bytearray (as `List Nat`), Optional[bytes] (as
+`Option (List Nat)`), Optional[bool], assignments (plain and augmented), if/else, for over range(...) or a list,
+return, list.append, len/max/min, indexing and slicing (total: out-of-range index = 0 — the theorems state the
+guards; `x[a:-k]` with a literal k), comparisons (`opt == int` is `opt == some int`, as `None == 3` is False),
+and/or/not, conditional expressions, `is (not) None`, `cast(int | bytes | bool, x)`, `bool(x)`, `bytes(x)`, `bytearray()`, calls of other
+translated functions, and `while True:` without break (the last statement of its block; see `Fn.do_while`).
+Logging calls and docstrings are dropped.  A read of a local that may be unbound is rejected.  Anything else raises
+Unsupported: the check then reports the function as untranslatable (an obligation that no longer checks)."""
 from __future__ import annotations
 
 import ast
 import inspect
+import re
 import textwrap
+from collections import namedtuple
 
 
 class _Missing:
@@ -61,13 +87,284 @@ class Unsupported(Exception):
 
 BINOPS = {ast.Add: "+", ast.Sub: "-", ast.Mult: "*", ast.FloorDiv: "/", ast.Mod: "%", ast.BitXor: "^^^",
           ast.BitAnd: "&&&", ast.BitOr: "|||", ast.LShift: "<<<", ast.RShift: ">>>"}
-
+COMMUTATIVE = {"+", "*", "^^^", "&&&", "|||"}
+PYOP = {"+": lambda a, b: a + b, "-": lambda a, b: a - b, "*": lambda a, b: a * b,
+        "/": lambda a, b: a // b if b else -1, "%": lambda a, b: a % b if b else -1, "^^^": lambda a, b: a ^ b,
+        "&&&": lambda a, b: a & b, "|||": lambda a, b: a | b, "<<<": lambda a, b: a << b if b < 4096 else -1,
+        ">>>": lambda a, b: a >> b}
 
 LEAN_TY = {"int": "Nat", "bool": "Bool", "list": "List Nat", "optint": "Option Nat", "optbool": "Option Bool",
            "optlist": "Option (List Nat)"}
 OPT_BASE = {"optint": "int", "optbool": "bool", "optlist": "list"}
-DEFAULTS = {"int": "0", "bool": "false", "list": "([] : List Nat)", "optint": "(none : Option Nat)",
-            "optbool": "(none : Option Bool)", "optlist": "(none : Option (List Nat))"}
+OPT_OF = {v: k for k, v in OPT_BASE.items()}
+MAX_SIZE = 4000          # nodes of one translated function: `if`s with a return duplicate what follows them
+
+# ---------------------------------------------------------------- the term language
+# ("lit", n) ("true",) ("false",) ("none",) ("nil",) ("var", id) ("const", lean text)
+# ("bin", op, a, b) ("not", a) ("and", [..]) ("eq", a, b) ("lt", a, b) ("ite", c, a, b)
+# ("app", head text, [args]) ("len", l) ("getD", l, i) ("take", l, n) ("drop", l, n) ("append1", l, x)
+# ("some", a) ("isSome", a) ("ogetD", a, default) ("tuple", [..]) ("range", lo, count)
+# statement positions only:
+# ("yield", [..])   the new state of the enclosing fold
+# ("letfold", out ids, in ids, item id, types, body, inits, coll, rest)
+TRUE, FALSE, NONE, NIL = ("true",), ("false",), ("none",), ("nil",)
+DEFAULT_IR = {"int": ("lit", 0), "bool": FALSE, "list": NIL, "optint": NONE, "optbool": NONE, "optlist": NONE}
+
+V = namedtuple("V", "ir type unbound")      # value of a python name: term, type tag, "may be unbound here"
+
+
+def lit(n):
+    return ("lit", n)
+
+
+def ckey(e):
+    """rename-invariant order of operands: literals last, then by the canonical text (binders print as #id)"""
+    return (1 if e[0] == "lit" else 0, show(e, None))
+
+
+def one_bit(e):
+    """is the value of e 0 or 1?"""
+    return e[0] == "bin" and e[1] == "&&&" and lit(1) in (e[2], e[3])
+
+
+def mk_bin(op, a, b):
+    if a[0] == "lit" and b[0] == "lit":
+        r = PYOP[op](a[1], b[1])
+        if r >= 0:
+            return lit(r)
+    if op == "%" and b == lit(2):              # x % 2  is  x & 1 (python: also for a negative x)
+        return mk_bin("&&&", a, lit(1))
+    if op in COMMUTATIVE:                      # associative too: one left-nested chain, ordered, literals folded
+        parts = []
+        for x in (a, b):
+            while x[0] == "bin" and x[1] == op:
+                parts.append(x[3])
+                x = x[2]
+            parts.append(x)
+        lits = [x for x in parts if x[0] == "lit"]
+        parts = sorted((x for x in parts if x[0] != "lit"), key=ckey)
+        if lits:
+            k = lits[0][1]
+            for x in lits[1:]:
+                k = PYOP[op](k, x[1])
+            parts.append(lit(k))
+        res = parts[0]
+        for x in parts[1:]:
+            res = ("bin", op, res, x)
+        return res
+    return ("bin", op, a, b)
+
+
+# Booleans are built from `<`, `==`, `and` and `not` only (`a <= b` is `not b < a`, `a or b` is `not (not a and not b)`;
+# the printer writes `≤` and `||` again), so terms that are equal by De Morgan or by the total order coincide.
+# Comparisons with a literal k are  k < x  or  not (k < x):  x > k, x >= k+1, not x <= k, not x < k+1.
+def mk_lt(a, b):
+    if a[0] == "lit" and b[0] == "lit":
+        return TRUE if a[1] < b[1] else FALSE
+    if b[0] == "lit" and b[1] >= 1 and a[0] != "lit":          # x < k  is  not (k-1 < x)
+        return ("not", ("lt", lit(b[1] - 1), a))
+    return ("lt", a, b)
+
+
+def mk_le(a, b):
+    return mk_not(mk_lt(b, a))                 # integers are totally ordered
+
+
+def mk_not(a):
+    if a == TRUE:
+        return FALSE
+    if a == FALSE:
+        return TRUE
+    if a[0] == "not":
+        return a[1]
+    if a[0] == "lt" and a[2][0] == "lit" and a[2][1] == 0:     # not (x < 0): kept as it is (x is not below 0 - 1)
+        return ("not", a)
+    if a[0] == "lt" and a[1][0] != "lit" and a[2][0] == "lit":
+        return mk_lt(lit(a[2][1] - 1), a[1])   # unreachable: mk_lt never builds x < k for k >= 1
+    return ("not", a)
+
+
+def mk_eq(a, b):
+    if a[0] == "lit" and b[0] == "lit":
+        return TRUE if a[1] == b[1] else FALSE
+    if ckey(b) < ckey(a):
+        a, b = b, a
+    if a[0] == "len" and b == lit(0):          # a length is never negative
+        return ("not", ("lt", lit(0), a))
+    if one_bit(a) and b == lit(1):             # a bit is 1 when it is not 0
+        return ("not", ("eq", a, lit(0)))
+    return ("eq", a, b)
+
+
+def mk_and(parts):
+    """all terms are total and pure, so the operands can be ordered"""
+    flat = []
+    for p in parts:
+        for q in (p[1] if p[0] == "and" else [p]):
+            if q != TRUE and q not in flat:
+                flat.append(q)
+    if FALSE in flat or any(("not", q) in flat for q in flat):
+        return FALSE
+    if not flat:
+        return TRUE
+    return flat[0] if len(flat) == 1 else ("and", sorted(flat, key=ckey))
+
+
+def mk_or(parts):
+    return mk_not(mk_and([mk_not(p) for p in parts]))
+
+
+def mk_junction(tag, parts):
+    return mk_and(parts) if tag == "and" else mk_or(parts)
+
+
+def mk_ite(c, a, b):
+    if c == TRUE:
+        return a
+    if c == FALSE:
+        return b
+    if a == b:
+        return a
+    if c[0] == "not":
+        return mk_ite(c[1], b, a)
+    if a == TRUE and b == FALSE:
+        return c
+    if a == FALSE and b == TRUE:
+        return mk_not(c)
+    # nested `if`s that share a branch are one `if`
+    if a[0] == "ite" and a[3] == b:            # if c: (if d: x else: y) else: y   is   if c and d: x else: y
+        return mk_ite(mk_and([c, a[1]]), a[2], b)
+    if a[0] == "ite" and a[2] == b:            # if c: (if d: y else: x) else: y   is   if c and not d: x else: y
+        return mk_ite(mk_and([c, mk_not(a[1])]), a[3], b)
+    if b[0] == "ite" and b[2] == a:            # if c: x else: (if d: x else: y)   is   if c or d: x else: y
+        return mk_ite(mk_or([c, b[1]]), a, b[3])
+    if b[0] == "ite" and b[3] == a:            # if c: x else: (if d: y else: x)   is   if c or not d: x else: y
+        return mk_ite(mk_or([c, mk_not(b[1])]), a, b[2])
+    return ("ite", c, a, b)
+
+
+def mk_is_some(a):
+    if a == NONE:
+        return FALSE
+    if a[0] == "some":
+        return TRUE
+    return ("isSome", a)
+
+
+def mk_oget(a, d):
+    if a == NONE:
+        return d
+    if a[0] == "some":
+        return a[1]
+    return ("ogetD", a, d)
+
+
+def mk_drop(l, n):
+    return l if n == lit(0) else ("drop", l, n)
+
+
+def children(e):
+    t = e[0]
+    if t in ("lit", "true", "false", "none", "nil", "var", "const"):
+        return []
+    if t == "bin":
+        return [e[2], e[3]]
+    if t in ("and", "tuple", "yield"):
+        return list(e[1])
+    if t == "app":
+        return list(e[2])
+    if t == "letfold":
+        return [e[5]] + list(e[6]) + [e[7], e[8]]
+    return list(e[1:])
+
+
+def size(e):
+    return 1 + sum(size(c) for c in children(e))
+
+
+def uses(e, acc=None):
+    """ids of the variables that occur in e"""
+    acc = set() if acc is None else acc
+    if e[0] == "var":
+        acc.add(e[1])
+    for c in children(e):
+        uses(c, acc)
+    return acc
+
+
+def atomic(s):
+    """is the text s one token or one parenthesised group?"""
+    if re.fullmatch(r"[\w.#']+", s):
+        return True
+    if not (s.startswith("(") and s.endswith(")")):
+        return False
+    depth = 0
+    for i, ch in enumerate(s):
+        depth += ch == "("
+        depth -= ch == ")"
+        if depth == 0 and i < len(s) - 1:
+            return False
+    return True
+
+
+def show(e, names):
+    """one-line Lean text of an expression; names = None prints binders as #id (the canonical text)"""
+    def a(x):
+        s = show(x, names)
+        return s if atomic(s) else "(" + s + ")"
+
+    t = e[0]
+    if t == "lit":
+        return str(e[1])
+    if t in ("true", "false", "none"):
+        return t
+    if t == "nil":
+        return "([] : List Nat)"
+    if t == "var":
+        return f"#{e[1]}" if names is None else names[e[1]]
+    if t == "const":
+        return e[1]
+    if t == "bin":
+        return f"({a(e[2])} {e[1]} {a(e[3])})"
+    if t == "not":
+        if names is not None and e[1][0] == "lt":                  # written with ≤
+            return f"decide ({a(e[1][2])} ≤ {a(e[1][1])})"
+        if names is not None and e[1][0] == "and" and 2 * sum(x[0] == "not" for x in e[1][1]) >= len(e[1][1]):
+            return "(" + " || ".join(a(mk_not(x)) for x in e[1][1]) + ")"       # written with ||
+        return f"(!{a(e[1])})"
+    if t == "and":
+        return "(" + " && ".join(a(x) for x in e[1]) + ")"
+    if t == "eq":
+        return f"({a(e[1])} == {a(e[2])})"
+    if t == "lt":
+        return f"decide ({a(e[1])} < {a(e[2])})"
+    if t == "ite":
+        return f"(if {show(e[1], names)} then {show(e[2], names)} else {show(e[3], names)})"
+    if t == "app":
+        return "(" + " ".join([e[1]] + [a(x) for x in e[2]]) + ")"
+    if t == "len":
+        return f"{a(e[1])}.length"
+    if t == "getD":
+        return f"({a(e[1])}.getD {a(e[2])} 0)"
+    if t == "take":
+        return f"({a(e[1])}.take {a(e[2])})"
+    if t == "drop":
+        return f"({a(e[1])}.drop {a(e[2])})"
+    if t == "append1":
+        return f"({a(e[1])} ++ [{show(e[2], names)}])"
+    if t == "some":
+        return f"(some {a(e[1])})"
+    if t == "isSome":
+        return f"{a(e[1])}.isSome"
+    if t == "ogetD":
+        return f"({a(e[1])}.getD {a(e[2])})"
+    if t in ("tuple", "yield"):
+        return a(e[1][0]) if len(e[1]) == 1 else "(" + ", ".join(show(x, names) for x in e[1]) + ")"
+    if t == "range":
+        return f"(List.range' {a(e[1])} {a(e[2])})"
+    if t == "letfold":                         # only for the canonical text
+        return "(fold " + " ".join(show(c, names) for c in children(e)) + ")"
+    raise Unsupported(f"internal: cannot print {t}")
 
 
 def dotted(node):
@@ -79,6 +376,29 @@ def dotted(node):
     return None
 
 
+def unify(ta, tb):
+    """the type that holds a value of type ta or tb (None: not known yet)"""
+    if ta is None or ta == tb:
+        return tb
+    if tb is None:
+        return ta
+    for x, y in ((ta, tb), (tb, ta)):
+        if x == "none":
+            return y if y in OPT_BASE else OPT_OF.get(y) or _unsup(f"no optional of {y}")
+        if x in OPT_BASE and OPT_BASE[x] == y:
+            return x
+    raise Unsupported(f"a variable holds a {ta} and a {tb}")
+
+
+def _unsup(msg):
+    raise Unsupported(msg)
+
+
+def proj_path(j, n):
+    """component j of a right-nested n-tuple"""
+    return ".2" * j + (".1" if j < n - 1 else "")
+
+
 class Fn:
     """one Python function -> one Lean definition"""
 
@@ -87,158 +407,194 @@ class Fn:
         self.obj = obj                    # Python function object
         self.params = params              # [(lean name, lean type)]
         self.ret = ret                    # 'Nat' | 'Bool' | 'List Nat' | 'Option Nat' | 'Option Bool'
-        self.mapping = mapping or {}      # python dotted name -> (lean expr, type)
-        # python dotted attribute -> (local mutable lean name (returned at the end), type); a bare name means int
+        self.mapping = mapping or {}      # python dotted name -> (lean expr, type); a bare name is a python parameter
+        # python dotted attribute -> (lean name of the final value, type); a bare name means int. The value on entry
+        # is the parameter <lean name>0; all final values are returned
         self.mutates = {k: ((v, "int") if isinstance(v, str) else v) for k, v in (mutates or {}).items()}
         self.calls = calls or {}          # python dotted callee/property -> (lean expr, type)
         self.callfns = callfns or {}      # python dotted callee with arguments -> (lean function (partially applied), [argument types], result type)
         self.fuel = fuel                  # lean expression: number of iterations granted to a `while True:` loop
-        self.aux = []                     # auxiliary definitions (loops), emitted before the definition
-        self.locals = {}                  # python local -> type
-        self.in_loop = False
-        self.lines = []
+        self.aux = []                     # auxiliary definitions (loops): (head lines, state ids, body term)
+        self.hints = {}                   # binder id -> name hint
+        self.tuples = {}                  # binder id of a component -> (binder id of the tuple, j, n)
+        self.in_for = False
+        self.in_while = False
+        self.order = []                   # python locals in order of first assignment
 
-    # ---------------------------------------------------------------- expressions
+    # ---------------------------------------------------------------- binders
+    def new_id(self, hint):
+        i = len(self.hints) + 1
+        self.hints[i] = hint
+        return i
+
+    def lname(self, py):
+        if py in self.mutates:
+            return self.mutates[py][0]
+        py = py.split(".")[-1]
+        return py.replace("_", "v_", 1) if py.startswith("_") else py
+
+    # ---------------------------------------------------------------- conversions
     def to_int(self, e, t):
         if t == "int":
             return e
         if t == "optint":                 # total: None is used as 0 (the theorems state the guards)
-            return f"(({e}).getD 0)"
+            return mk_oget(e, lit(0))
         if t == "bool":
-            return f"(if {e} then 1 else 0)"
-        raise Unsupported(f"cannot use {t} as int: {e}")
+            return mk_ite(e, lit(1), lit(0))
+        raise Unsupported(f"cannot use {t} as int")
 
     def to_bool(self, e, t):
         if t == "bool":
             return e
         if t == "int":
-            return f"({e} != 0)"
+            return mk_not(mk_eq(e, lit(0)))
         if t == "optint":                 # truthiness: None and 0 are false
-            return f"(({e}).getD 0 != 0)"
+            return mk_not(mk_eq(mk_oget(e, lit(0)), lit(0)))
         if t == "optbool":
-            return f"(({e}).getD false)"
+            return mk_oget(e, FALSE)
         if t == "list":
-            return f"(!({e}).isEmpty)"
+            return mk_lt(lit(0), ("len", e))
         if t == "optlist":
-            return f"(!(({e}).getD []).isEmpty)"
-        raise Unsupported(f"cannot use {t} as bool: {e}")
+            return mk_lt(lit(0), ("len", mk_oget(e, NIL)))
+        if t == "none":
+            return FALSE
+        raise Unsupported(f"cannot use {t} as bool")
 
     def to_list(self, e, t):
         if t == "list":
             return e
         if t == "optlist":                # total: None is used as b"" (the theorems state the guards)
-            return f"(({e}).getD [])"
-        raise Unsupported(f"cannot use {t} as bytes/list: {e}")
+            return mk_oget(e, NIL)
+        raise Unsupported(f"cannot use {t} as bytes/list")
 
     def coerce(self, e, te, want):
-        """value of type `te` stored in / returned as a `want`"""
-        if te == want:
+        """value of type `te` stored in / returned as a `want`: the same type, or an Optional of it (python
+        values keep their type: an int stored where the other values are bools is rejected, not converted)"""
+        if te == want or want is None or te is None:
             return e
-        if want in OPT_BASE:
-            if te == "none":
-                return "none"
-            if te in OPT_BASE:
-                raise Unsupported(f"cannot use {te} as {want}: {e}")
-            return f"some ({self.coerce(e, te, OPT_BASE[want])})"
-        if want == "bool":
-            return self.to_bool(e, te)
-        if want == "int":
-            return self.to_int(e, te)
-        if want == "list":
-            return self.to_list(e, te)
-        raise Unsupported(f"cannot use {te} as {want}: {e}")
+        if want in OPT_BASE and te == "none":
+            return NONE
+        if want in OPT_BASE and te == OPT_BASE[want]:
+            return ("some", e)
+        raise Unsupported(f"cannot use {te} as {want}")
 
-    def expr(self, n):
+    def convert(self, e, te, want):
+        """argument of a translated function: python converts nothing either, but None is passed as the default
+        (the theorems state the guards)"""
+        if te in OPT_BASE and want == OPT_BASE[te]:
+            return mk_oget(e, DEFAULT_IR[want])
+        return self.coerce(e, te, want)
+
+    # ---------------------------------------------------------------- expressions
+    def truth(self, n, env):
+        """a python expression in a boolean context"""
+        if isinstance(n, ast.BoolOp):
+            return mk_junction("and" if isinstance(n.op, ast.And) else "or", [self.truth(v, env) for v in n.values])
+        if isinstance(n, ast.UnaryOp) and isinstance(n.op, ast.Not):
+            return mk_not(self.truth(n.operand, env))
+        return self.to_bool(*self.expr(n, env))
+
+    def compare(self, op, a, ta, b, tb):
+        if isinstance(op, (ast.Is, ast.IsNot)):
+            if tb != "none":
+                raise Unsupported("is / is not with a non-None operand")
+            if ta not in OPT_BASE and ta != "none":
+                raise Unsupported(f"is / is not None of a {ta}")
+            return mk_is_some(a) if isinstance(op, ast.IsNot) else mk_not(mk_is_some(a))
+        if isinstance(op, (ast.Eq, ast.NotEq)):
+            r = None
+            if ta == tb and ta in ("bool", "list", "optint", "optbool", "optlist"):
+                r = mk_eq(a, b)
+            elif ta in OPT_BASE and tb == OPT_BASE[ta]:          # `None == 3` is False
+                r = mk_eq(a, ("some", b))
+            elif tb in OPT_BASE and ta == OPT_BASE[tb]:
+                r = mk_eq(("some", a), b)
+            elif ta in OPT_BASE or tb in OPT_BASE or ta in ("list", "none") or tb in ("list", "none"):
+                raise Unsupported(f"== between {ta} and {tb}")
+            else:
+                r = mk_eq(self.to_int(a, ta), self.to_int(b, tb))
+            return r if isinstance(op, ast.Eq) else mk_not(r)
+        x, y = self.to_int(a, ta), self.to_int(b, tb)
+        if isinstance(op, ast.Lt):
+            return mk_lt(x, y)
+        if isinstance(op, ast.LtE):
+            return mk_le(x, y)
+        if isinstance(op, ast.Gt):
+            return mk_lt(y, x)
+        if isinstance(op, ast.GtE):
+            return mk_le(y, x)
+        raise Unsupported(f"comparison {type(op).__name__}")
+
+    def expr(self, n, env):
+        """(term, type tag) of a python expression"""
         if isinstance(n, ast.Constant):
             if isinstance(n.value, bool):
-                return ("true" if n.value else "false"), "bool"
+                return (TRUE if n.value else FALSE), "bool"
             if isinstance(n.value, int):
-                return str(n.value), "int"
+                if n.value < 0:
+                    raise Unsupported("negative literal")
+                return lit(n.value), "int"
             if n.value is None:
-                return "none", "none"
+                return NONE, "none"
             raise Unsupported(f"constant {n.value!r}")
         d = dotted(n)
         if d is not None:
-            if d in self.mutates:
-                return self.mutates[d]
+            if d in env:
+                if env[d].unbound:
+                    raise Unsupported(f"local {d} may be unbound where it is read")
+                return env[d].ir, env[d].type
             if d in self.mapping:
-                return self.mapping[d]
+                return ("const", self.mapping[d][0]), self.mapping[d][1]
             if d in self.calls:
-                return self.calls[d]
-            if d in self.locals:
-                return d.replace("_", "v_") if d.startswith("_") else d, self.locals[d]
+                return ("const", self.calls[d][0]), self.calls[d][1]
             raise Unsupported(f"unknown name {d}")
         if isinstance(n, ast.BinOp):
             if type(n.op) not in BINOPS:
                 raise Unsupported(f"operator {type(n.op).__name__}")
-            a, ta = self.expr(n.left)
-            b, tb = self.expr(n.right)
-            if isinstance(n.op, ast.Mult) and ta == "list":       # `[] * 256`
-                return a, "list"
-            return f"({self.to_int(a, ta)} {BINOPS[type(n.op)]} {self.to_int(b, tb)})", "int"
+            if isinstance(n.op, ast.Mult) and isinstance(n.left, ast.List) and not n.left.elts:       # `[] * 256`
+                self.to_int(*self.expr(n.right, env))
+                return NIL, "list"
+            a, ta = self.expr(n.left, env)
+            b, tb = self.expr(n.right, env)
+            return mk_bin(BINOPS[type(n.op)], self.to_int(a, ta), self.to_int(b, tb)), "int"
         if isinstance(n, ast.UnaryOp) and isinstance(n.op, ast.Not):
-            a, ta = self.expr(n.operand)
-            return f"(!{self.to_bool(a, ta)})", "bool"
+            return self.truth(n, env), "bool"
         if isinstance(n, ast.BoolOp):
-            op = "&&" if isinstance(n.op, ast.And) else "||"
-            parts = [self.to_bool(*self.expr(v)) for v in n.values]
-            return "(" + f" {op} ".join(parts) + ")", "bool"
+            # `a and b` is one of its operands: a Bool only when all of them are
+            if any(self.expr(v, env)[1] != "bool" for v in n.values):
+                raise Unsupported("and / or of non-bool operands used as a value")
+            return self.truth(n, env), "bool"
         if isinstance(n, ast.Compare):
-            if len(n.ops) == 2 and all(isinstance(o, (ast.Lt, ast.LtE)) for o in n.ops):      # a < b < c
-                a, ta = self.expr(n.left)
-                b, tb = self.expr(n.comparators[0])
-                c, tc = self.expr(n.comparators[1])
-                o1 = "<" if isinstance(n.ops[0], ast.Lt) else "≤"
-                o2 = "<" if isinstance(n.ops[1], ast.Lt) else "≤"
-                return f"(decide ({self.to_int(a, ta)} {o1} {self.to_int(b, tb)}) && decide ({self.to_int(b, tb)} {o2} {self.to_int(c, tc)}))", "bool"
-            if len(n.ops) != 1:
-                raise Unsupported("chained comparison")
-            a, ta = self.expr(n.left)
-            b, tb = self.expr(n.comparators[0])
-            op = n.ops[0]
-            if isinstance(op, (ast.Is, ast.IsNot)):
-                if tb != "none":
-                    raise Unsupported("is / is not with a non-None operand")
-                if ta not in OPT_BASE:
-                    raise Unsupported(f"is / is not None of a {ta}")
-                return (f"({a}).isNone" if isinstance(op, ast.Is) else f"({a}).isSome"), "bool"
-            if isinstance(op, (ast.Eq, ast.NotEq)):
-                eq = "==" if isinstance(op, ast.Eq) else "!="
-                if ta == tb and ta in ("bool", "list", "optint", "optbool", "optlist"):
-                    return f"({a} {eq} {b})", "bool"
-                if ta in OPT_BASE and tb == OPT_BASE[ta]:          # `None == 3` is False
-                    return f"({a} {eq} some ({b}))", "bool"
-                if tb in OPT_BASE and ta == OPT_BASE[tb]:
-                    return f"(some ({a}) {eq} {b})", "bool"
-                if ta in OPT_BASE or tb in OPT_BASE or ta == "list" or tb == "list":
-                    raise Unsupported(f"== between {ta} and {tb}")
-            x, y = self.to_int(a, ta), self.to_int(b, tb)
-            sym = {ast.Eq: "==", ast.NotEq: "!=", ast.Lt: "<", ast.LtE: "≤", ast.Gt: ">", ast.GtE: "≥"}.get(type(op))
-            if sym is None:
-                raise Unsupported(f"comparison {type(op).__name__}")
-            if sym in ("==", "!="):
-                return f"({x} {sym} {y})", "bool"
-            return f"decide ({x} {sym} {y})", "bool"
+            left = n.left
+            parts = []
+            for op, right in zip(n.ops, n.comparators):
+                parts.append(self.compare(op, *self.expr(left, env), *self.expr(right, env)))
+                left = right
+            return mk_junction("and", parts), "bool"
         if isinstance(n, ast.IfExp):
-            c = self.to_bool(*self.expr(n.test))
-            a, ta = self.expr(n.body)
-            b, tb = self.expr(n.orelse)
-            if ta == "bool" and tb == "bool":
-                return f"(if {c} then {a} else {b})", "bool"
-            return f"(if {c} then {self.to_int(a, ta)} else {self.to_int(b, tb)})", "int"
+            c = self.truth(n.test, env)
+            a, ta = self.expr(n.body, env)
+            b, tb = self.expr(n.orelse, env)
+            t = unify(ta, tb) if "none" in (ta, tb) or ta in OPT_BASE or tb in OPT_BASE or ta == tb else "int"
+            return mk_ite(c, self.coerce(a, ta, t), self.coerce(b, tb, t)), t
         if isinstance(n, ast.Call):
             f = dotted(n.func)
             if n.keywords:
                 raise Unsupported(f"keyword arguments in call {f}")
             if f == "len" and len(n.args) == 1:
-                a, ta = self.expr(n.args[0])
-                return f"({self.to_list(a, ta)}).length", "int"
-            if f == "cast" and len(n.args) == 2 and dotted(n.args[0]) == "int":       # typing.cast: identity
-                return self.to_int(*self.expr(n.args[1])), "int"
+                a, ta = self.expr(n.args[0], env)
+                return ("len", self.to_list(a, ta)), "int"
+            if f == "cast" and len(n.args) == 2 and dotted(n.args[0]) in ("int", "bytes", "bytearray", "bool"):
+                # typing.cast is the identity; the translation is total: None is used as the default of the type
+                a, ta = self.expr(n.args[1], env)
+                want = {"int": "int", "bool": "bool"}.get(dotted(n.args[0]), "list")
+                return self.convert(a, ta, want), want
+            if f == "bool" and len(n.args) == 1:
+                return self.truth(n.args[0], env), "bool"
             if f in ("bytes", "bytearray") and not n.args:
-                return "([] : List Nat)", "list"
+                return NIL, "list"
             if f in ("bytes", "bytearray") and len(n.args) == 1:                       # copy of a byte string
-                a, ta = self.expr(n.args[0])
+                a, ta = self.expr(n.args[0], env)
                 if ta != "list":
                     raise Unsupported(f"{f}() of a {ta}")
                 return a, "list"
@@ -246,76 +602,143 @@ class Fn:
                 lean, argts, rt = self.callfns[f]
                 if len(argts) != len(n.args):
                     raise Unsupported(f"call {f}: {len(n.args)} arguments, {len(argts)} expected")
-                args = [self.coerce(*self.expr(x), want) for x, want in zip(n.args, argts)]
-                return "(" + " ".join([lean] + args) + ")", rt
+                args = [self.convert(*self.expr(x, env), want) for x, want in zip(n.args, argts)]
+                return (("app", lean, args) if args else ("const", "(" + lean + ")")), rt
             if f in ("max", "min") and len(n.args) == 2:
-                a, ta = self.expr(n.args[0])
-                b, tb = self.expr(n.args[1])
-                return f"({f} {self.to_int(a, ta)} {self.to_int(b, tb)})", "int"
+                a, ta = self.expr(n.args[0], env)
+                b, tb = self.expr(n.args[1], env)
+                return ("app", f, sorted([self.to_int(a, ta), self.to_int(b, tb)], key=ckey)), "int"
             if f in self.calls and not n.args:
-                return self.calls[f]
+                return ("const", self.calls[f][0]), self.calls[f][1]
             raise Unsupported(f"call {f}")
         if isinstance(n, ast.Subscript):
-            a, ta = self.expr(n.value)
+            a, ta = self.expr(n.value, env)
             if ta != "list":
                 raise Unsupported("subscript of a non-list")
             if isinstance(n.slice, ast.Slice):
                 if n.slice.step is not None:
                     raise Unsupported("slice step")
-                lo = self.to_int(*self.expr(n.slice.lower)) if n.slice.lower else "0"
+                lo = self.to_int(*self.expr(n.slice.lower, env)) if n.slice.lower else lit(0)
                 if n.slice.upper is None:
-                    return f"(({a}).drop {lo})", "list"
+                    return mk_drop(a, lo), "list"
                 up = n.slice.upper
                 if (isinstance(up, ast.UnaryOp) and isinstance(up.op, ast.USub) and isinstance(up.operand, ast.Constant)
                         and type(up.operand.value) is int and up.operand.value > 0):
                     # x[lo:-k] ends at max(len(x) - k, 0): exactly the truncated subtraction of Nat
-                    return f"((({a}).take (({a}).length - {up.operand.value})).drop {lo})", "list"
-                hi = self.to_int(*self.expr(n.slice.upper))
-                return f"((({a}).take {hi}).drop {lo})", "list"
-            i = self.to_int(*self.expr(n.slice))
-            return f"(({a}).getD {i} 0)", "int"
+                    return mk_drop(("take", a, ("bin", "-", ("len", a), lit(up.operand.value))), lo), "list"
+                hi = self.to_int(*self.expr(n.slice.upper, env))
+                return mk_drop(("take", a, hi), lo), "list"
+            i = self.to_int(*self.expr(n.slice, env))
+            return ("getD", a, i), "int"
         if isinstance(n, ast.List) and not n.elts:
-            return "([] : List Nat)", "list"
+            return NIL, "list"
         raise Unsupported(f"expression {type(n).__name__}")
 
     # ---------------------------------------------------------------- statements
-    def lname(self, py):
-        return py.replace("_", "v_") if py.startswith("_") else py
+    @staticmethod
+    def skipped(st):
+        if isinstance(st, ast.Pass):
+            return True
+        if isinstance(st, ast.Expr) and isinstance(st.value, ast.Constant) and isinstance(st.value.value, str):
+            return True                                            # docstring
+        if isinstance(st, ast.Expr) and isinstance(st.value, ast.Call):
+            return (dotted(st.value.func) or "").startswith("_LOGGER.")      # logging
+        return False
 
-    def collect_locals(self, body):
-        """first assignment decides the type of a local"""
+    def simple(self, body):
+        """only assignments (and `if`s of such): the block is a function from environments to environments"""
         for st in body:
-            for node in ast.walk(st):
-                targets = []
-                if isinstance(node, ast.Assign):
-                    targets = [(t, node.value) for t in node.targets]
-                elif isinstance(node, ast.AugAssign):
-                    targets = [(node.target, None)]
-                elif isinstance(node, ast.For):
-                    if isinstance(node.target, ast.Name) and node.target.id != "_":
-                        it = node.iter
-                        is_range = isinstance(it, ast.Call) and dotted(it.func) == "range"
-                        self.locals.setdefault(node.target.id, "int")
-                for t, v in targets:
-                    if isinstance(t, ast.Name) and t.id not in self.locals:
-                        self.locals[t.id] = "int"        # provisional; refined below
-        # refine types in program order
+            if self.skipped(st) or isinstance(st, (ast.Assign, ast.AugAssign)):
+                continue
+            if isinstance(st, ast.Expr) and isinstance(st.value, ast.Call) and (dotted(st.value.func) or "").endswith(".append"):
+                continue
+            if isinstance(st, ast.If) and self.simple(st.body) and self.simple(st.orelse):
+                continue
+            return False
+        return True
+
+    def assigned(self, body):
+        """python names (locals and mutated attributes) a block may assign, loop variables excluded"""
+        res = []
+
+        def visit(x):
+            d = None
+            if isinstance(x, ast.Assign):
+                d = dotted(x.targets[0])
+            elif isinstance(x, ast.AugAssign):
+                d = dotted(x.target)
+            elif isinstance(x, ast.Expr) and isinstance(x.value, ast.Call) and (dotted(x.value.func) or "").endswith(".append"):
+                d = dotted(x.value.func)[: -len(".append")]
+            if d is not None and d not in res:
+                res.append(d)
+            for c in ast.iter_child_nodes(x):          # source order
+                visit(c)
         for st in body:
-            self._refine(st)
+            visit(st)
+        return res
 
-    def _refine(self, st):
-        for node in ast.walk(st):
-            if isinstance(node, ast.Assign) and isinstance(node.targets[0], ast.Name):
-                try:
-                    _, t = self.expr(node.value)
-                except Unsupported:
-                    continue
-                if t in ("bool", "list", "optint", "optbool", "optlist") and not getattr(self, "_typed_" + node.targets[0].id, False):
-                    self.locals[node.targets[0].id] = t
-                setattr(self, "_typed_" + node.targets[0].id, True)
+    def assign(self, d, e, te, env):
+        env = dict(env)
+        if d in self.mutates:
+            env[d] = V(self.coerce(e, te, self.mutates[d][1]), self.mutates[d][1], False)
+        else:
+            env[d] = V(e, te, False)
+        return env
 
-    def default(self, t):
-        return DEFAULTS[t]
+    def exec_simple(self, body, env):
+        for st in body:
+            if self.skipped(st):
+                continue
+            if isinstance(st, ast.If):
+                env = self.join(self.truth(st.test, env), self.exec_simple(st.body, env), self.exec_simple(st.orelse, env))
+                continue
+            if isinstance(st, ast.Expr):                           # x.append(v)
+                f = dotted(st.value.func)
+                tgt = f[: -len(".append")]
+                if len(st.value.args) != 1 or st.value.keywords:
+                    raise Unsupported("append with other than one argument")
+                if tgt not in env or tgt in self.mapping or tgt in self.mutates:
+                    raise Unsupported(f"append to {tgt}, which is not a local")
+                l, tl = self.expr(st.value.func.value, env)
+                if tl != "list":
+                    raise Unsupported(f"append to a {tl}")
+                env = self.assign(tgt, ("append1", l, self.to_int(*self.expr(st.value.args[0], env))), "list", env)
+                continue
+            if isinstance(st, ast.Assign):
+                if len(st.targets) != 1:
+                    raise Unsupported("multiple assignment")
+                target, value = st.targets[0], st.value
+            else:
+                if type(st.op) not in BINOPS:
+                    raise Unsupported("augmented operator")
+                target = st.target                                 # x op= e  is  x = x op e
+                value = ast.BinOp(left=target, op=st.op, right=st.value)
+            d = dotted(target)
+            if d is None or not (isinstance(target, ast.Name) or d in self.mutates):
+                raise Unsupported(f"assignment target {ast.dump(target)[:40]}")
+            if d == "self" or (d in self.mapping and d not in env):
+                raise Unsupported(f"assignment to {d}")
+            e, te = self.expr(value, env)
+            if te == "list" and self.appends and isinstance(value, ast.Name):
+                raise Unsupported(f"{d} = {value.id}: two names for one list that may be appended to")
+            env = self.assign(d, e, te, env)
+        return env
+
+    def join(self, c, ea, eb):
+        """the environment after `if c: A else: B`, from the environments after A and after B"""
+        env = {}
+        for d in list(ea) + [x for x in eb if x not in ea]:
+            va, vb = ea.get(d), eb.get(d)
+            if va is None or vb is None:       # bound on one side only: reading it is rejected
+                v = va or vb
+                env[d] = V(v.ir, v.type, True)
+                continue
+            if va.ir == vb.ir and va.type == vb.type:
+                env[d] = V(va.ir, va.type, va.unbound or vb.unbound)
+                continue
+            t = unify(va.type, vb.type)
+            env[d] = V(mk_ite(c, self.coerce(va.ir, va.type, t), self.coerce(vb.ir, vb.type, t)), t, va.unbound or vb.unbound)
+        return env
 
     def ret_tag(self):
         for tag, ty in LEAN_TY.items():
@@ -323,30 +746,139 @@ class Fn:
                 return tag
         raise Unsupported(f"return type {self.ret}")
 
-    def ret_expr(self, n):
-        if n is None:
-            if self.mutates:
-                vals = [v for v, _ in self.mutates.values()]
-                return vals[0] if len(vals) == 1 else "(" + ", ".join(vals) + ")"
-            return "()"
-        e, t = self.expr(n)
-        return self.coerce(e, t, self.ret_tag())
+    def final_state(self, env):
+        """what a function that mutates attributes answers: their final values"""
+        return ("tuple", [self.coerce(env[d].ir, env[d].type, t) for d, (_, t) in self.mutates.items()])
 
-    # ---------------------------------------------------------------- `while True:`
-    def state_vars(self):
-        """the `let mut` variables of the definition: [(lean name, type)]"""
-        res = list(self.mutates.values())
-        res += [(self.lname(py), t) for py, t in self.locals.items() if not any(py == p for p, _ in self.params)]
-        return res
+    def block(self, body, env, k):
+        """the value of running `body` in `env` and then the continuation `k` (a function of the environment)"""
+        for pos, st in enumerate(body):
+            rest = body[pos + 1:]
+            if self.skipped(st):
+                continue
+            if self.simple([st]):
+                env = self.exec_simple([st], env)
+                continue
+            if isinstance(st, ast.If):
+                c = self.truth(st.test, env)
+                return mk_ite(c, self.block(st.body + rest, env, k), self.block(st.orelse + rest, env, k))
+            if isinstance(st, ast.Return):
+                if self.in_for:
+                    raise Unsupported("return inside a for loop")
+                if st.value is None or (isinstance(st.value, ast.Constant) and st.value.value is None and self.mutates):
+                    if not self.mutates:
+                        return self.coerce(NONE, "none", self.ret_tag())
+                    return self.final_state(env)
+                return self.coerce(*self.expr(st.value, env), self.ret_tag())
+            if isinstance(st, ast.For):
+                return self.do_for(st, rest, env, k)
+            if isinstance(st, ast.While):
+                return self.do_while(st, env)          # no break: what follows the loop is never reached
+            if isinstance(st, ast.Expr) and isinstance(st.value, ast.Call):
+                raise Unsupported(f"statement call {dotted(st.value.func)}")
+            raise Unsupported(f"statement {type(st).__name__}")
+        return k(env)
 
-    def while_true(self, st, pad):
-        """`while True:` without break/continue, as the last statement of its block (so whatever follows the
-        block is only reached by falling out of an enclosing `if`, never from the loop).  The loop becomes an
+    # ---------------------------------------------------------------- loops
+    def loop_state(self, state, env, run):
+        """Translate a loop body whose state is the python names `state`.  run(body env, ids, types) answers the
+        body term; it calls self.leaf(env) where an iteration ends.  The types of the state are those on entry,
+        widened (int -> Option int, ...) or found (unbound on entry) from what an iteration leaves."""
+        types = {d: (env[d].type if d in env else None) for d in state}
+        for _ in range(4):
+            ids = {d: self.new_id(self.lname(d)) for d in state}
+            benv = dict(env)
+            for d in state:
+                benv[d] = V(("var", ids[d]), types[d], d not in env or env[d].unbound)
+            seen = dict(types)
+            saved = self.leaf
+
+            def leaf(e, types=types, seen=seen, state=state):
+                out = []
+                for d in state:
+                    v = e[d]
+                    if types[d] is not None and v.type is not None:
+                        try:
+                            out.append(self.coerce(v.ir, v.type, types[d]))
+                            continue
+                        except Unsupported:
+                            pass
+                    seen[d] = unify(seen[d], v.type)
+                    out.append(v.ir)
+                return out
+            self.leaf = leaf
+            try:
+                body = run(benv, ids, types)
+            finally:
+                self.leaf = saved
+            if seen == types:
+                if any(t is None for t in types.values()):
+                    raise Unsupported("a loop variable whose type cannot be found")
+                return ids, types, body
+            types = seen
+        raise Unsupported("the types of the loop state do not settle")
+
+    def do_for(self, st, rest, env, k):
+        """`for x in coll: body` without break / continue / return: a left fold.  State: the names assigned in the
+        body (first-assignment order of the function), pruned afterwards to those that are needed."""
+        if st.orelse:
+            raise Unsupported("for-else")
+        if not isinstance(st.target, ast.Name):
+            raise Unsupported("for target")
+        if any(isinstance(x, (ast.Break, ast.Continue)) for s2 in st.body for x in ast.walk(s2)):
+            raise Unsupported("break / continue")
+        tgt = st.target.id
+        it = st.iter
+        if isinstance(it, ast.Call) and dotted(it.func) == "range":
+            if it.keywords or not 1 <= len(it.args) <= 2:
+                raise Unsupported("range with a step")
+            args = [self.to_int(*self.expr(a, env)) for a in it.args]
+            lo, hi = (lit(0), args[0]) if len(args) == 1 else args
+            coll = ("range", lo, hi if lo == lit(0) else mk_bin("-", hi, lo))      # start and number of items
+        else:
+            e, te = self.expr(it, env)
+            if te != "list":
+                raise Unsupported("for over a non-list")
+            coll = e
+        names = self.assigned(st.body)
+        state = [d for d in self.order if d in names and d != tgt]
+        item = self.new_id(self.lname(tgt))
+
+        def run(benv, ids, types):
+            benv[tgt] = V(("var", item), "int", False)
+            was, self.in_for = self.in_for, True
+            try:
+                return self.block(st.body, benv, lambda e: ("yield", self.leaf(e)))
+            finally:
+                self.in_for = was
+        ids, types, body = self.loop_state(state, env, run)
+        env2 = dict(env)
+        env2.pop(tgt, None)                    # python leaves the last item (or nothing) in it: reading it is rejected
+        for x in ast.walk(st):                 # ... and so for the variables of inner loops
+            if isinstance(x, ast.For) and isinstance(x.target, ast.Name):
+                env2.pop(x.target.id, None)
+        if not state:
+            return self.block(rest, env2, k)
+        outs = [self.new_id(self.lname(d)) for d in state]
+        inits = []
+        for d, o in zip(state, outs):
+            if d in env:
+                inits.append(self.coerce(env[d].ir, env[d].type, types[d]))
+            else:
+                inits.append(DEFAULT_IR[types[d]])
+            env2[d] = V(("var", o), types[d], d not in env or env[d].unbound)
+        return ("letfold", outs, [ids[d] for d in state], item, [types[d] for d in state], body, inits, coll,
+                self.block(rest, env2, k))
+
+    def do_while(self, st, env):
+        """`while True:` without break/continue (so whatever follows it is never reached from the loop).  The loop becomes an
         auxiliary definition by recursion on a fuel argument, whose body is the translated loop body followed by
-        the recursive call; the state is all `let mut` variables.  A `return` in the body is a return of the
-        function, as in Python.  Python's loop has no bound: when the fuel runs out the auxiliary definition
-        answers its extra argument `oof`, and the equivalence theorem is stated for every `oof` and every large
-        enough fuel — so it also proves that the fuel the definition grants (`Fn.fuel`) is never used up."""
+        the recursive call; the state is ALL locals of the function, in order of first assignment (a local that is
+        not bound yet is passed as the default of its type; it cannot be read before it is assigned).  A `return`
+        in the body is a return of the function, as in Python.  Python's loop has no bound: when the fuel runs out
+        the auxiliary definition answers its extra argument `oof`, and the equivalence theorem is stated for every
+        `oof` and every large enough fuel — so it also proves that the fuel the definition grants (`Fn.fuel`) is
+        never used up."""
         if not (isinstance(st.test, ast.Constant) and st.test.value is True):
             raise Unsupported("while with a condition other than True")
         if st.orelse:
@@ -355,144 +887,200 @@ class Fn:
             raise Unsupported("break / continue / nested while in `while True`")
         if self.fuel is None:
             raise Unsupported("`while True` in a function without a configured fuel")
-        if self.in_loop:
+        if self.in_for or self.in_while:
             raise Unsupported("`while True` inside another loop")
-        state = self.state_vars()
+        state = [d for d in self.order if d not in self.loop_targets]
         name = f"{self.name}.loop{len(self.aux) + 1}"
         pargs = " ".join(n for n, _ in self.params)
-        self.in_loop = True
-        body = self.stmts(st.body, 2)
-        self.in_loop = False
-        lines = [f"def {name} " + " ".join(f"({n} : {t})" for n, t in self.params) + f" (oof : {self.ret}) : Nat → "
-                 + " → ".join(LEAN_TY[t] for _, t in state) + f" → {self.ret}",
-                 "  | 0, " + ", ".join("_" for _ in state) + " => oof",
-                 "  | fuel + 1, " + ", ".join(f"{n}_in" for n, _ in state) + " => Id.run do"]
-        lines += [f"    let mut {n} := {n}_in" for n, _ in state]
-        lines += body
-        lines.append(f"    return {name} {pargs} oof fuel " + " ".join(n for n, _ in state))
-        self.aux.append("\n".join(lines))
-        oof = self.default(self.ret_tag())
-        return [f"{pad}return {name} {pargs} {oof} ({self.fuel}) " + " ".join(n for n, _ in state)]
 
-    def stmts(self, body, ind):
-        out = []
+        def run(benv, ids, types):
+            self.in_while = True
+            try:
+                return self.block(st.body, benv, lambda e: ("app", f"{name} {pargs} oof fuel", self.leaf(e)))
+            finally:
+                self.in_while = False
+        ids, types, body = self.loop_state(state, env, run)
+        head = [f"def {name} " + " ".join(f"({n} : {t})" for n, t in self.params) + f" (oof : {self.ret}) : Nat → "
+                + " → ".join(LEAN_TY[types[d]] for d in state) + f" → {self.ret}",
+                "  | 0, " + ", ".join("_" for _ in state) + " => oof"]
+        self.aux.append((head, [ids[d] for d in state], body))
+        args = [self.coerce(env[d].ir, env[d].type, types[d]) if d in env else DEFAULT_IR[types[d]] for d in state]
+        oof = {"optint": "(none : Option Nat)", "optbool": "(none : Option Bool)", "optlist": "(none : Option (List Nat))",
+               "int": "0", "bool": "false", "list": "([] : List Nat)"}[self.ret_tag()]
+        return ("app", f"{name} {pargs} {oof} ({self.fuel})", args)
+
+    leaf = None
+
+    # ---------------------------------------------------------------- dead state
+    def project(self, body, keep):
+        """the body of a fold with only the components `keep` of its state"""
+        t = body[0]
+        if t == "yield":
+            return ("yield", [body[1][j] for j in keep])
+        if t == "ite":
+            return mk_ite(body[1], self.project(body[2], keep), self.project(body[3], keep))
+        if t == "letfold":
+            return body[:8] + (self.project(body[8], keep),)
+        raise Unsupported("internal: fold body")
+
+    def prune(self, e):
+        """drop the components of fold states that nothing needs (and folds that nothing needs)"""
+        t = e[0]
+        if t == "ite":
+            return mk_ite(e[1], self.prune(e[2]), self.prune(e[3]))
+        if t != "letfold":
+            return e
+        _, outs, ins, item, types, body, inits, coll, rest = e
+        rest = self.prune(rest)
+        used = uses(rest)
+        keep = [j for j, o in enumerate(outs) if o in used]
+        while True:
+            pbody = self.prune(self.project(body, keep))
+            need = uses(pbody)
+            more = [j for j, i in enumerate(ins) if i in need and j not in keep]
+            if not more:
+                break
+            keep = sorted(keep + more)
+        if not keep:
+            return rest
+        pick = lambda xs: [xs[j] for j in keep]
+        return ("letfold", pick(outs), pick(ins), item, pick(types), pbody, pick(inits), coll, rest)
+
+    # ---------------------------------------------------------------- printing
+    def name_binders(self, e, taken, names):
+        """readable names for the binders of a statement-position term, unique in the definition"""
+        def fresh(hint):
+            n, i = hint, 0
+            while n in taken:
+                i += 1
+                n = f"{hint}_{i}"
+            taken.add(n)
+            return n
+        t = e[0]
+        if t == "ite":
+            self.name_binders(e[2], taken, names)
+            self.name_binders(e[3], taken, names)
+        if t != "letfold":
+            return
+        _, outs, ins, item, types, body, inits, coll, rest = e
+        n = len(outs)
+        ub = uses(body)
+        names[item] = fresh(self.hints[item]) if item in ub else "_"
+        if n == 1:
+            names[outs[0]] = fresh(self.hints[outs[0]])
+            names[ins[0]] = fresh(self.hints[ins[0]]) if ins[0] in ub else "_"
+        else:
+            r, s = fresh("r"), fresh("s")
+            names[("tuple", ins[0])], names[("tuple", outs[0])] = s, r
+            for j in range(n):
+                names[ins[j]] = s + proj_path(j, n)
+                names[outs[j]] = r + proj_path(j, n)
+        self.name_binders(body, taken, names)
+        self.name_binders(rest, taken, names)
+
+    def lines(self, e, names, ind):
+        """Lean text (lines) of a statement-position term"""
         pad = "  " * ind
-        for pos, st in enumerate(body):
-            if isinstance(st, ast.Expr) and isinstance(st.value, ast.Constant) and isinstance(st.value.value, str):
-                continue                                           # docstring
-            if isinstance(st, ast.While):
-                if pos != len(body) - 1:
-                    raise Unsupported("statements after a `while True` loop")
-                out += self.while_true(st, pad)
-                continue
-            if isinstance(st, ast.Expr) and isinstance(st.value, ast.Call):
-                f = dotted(st.value.func) or ""
-                if f.startswith("_LOGGER."):
-                    continue                                       # logging
-                if f.endswith(".append") and len(st.value.args) == 1:
-                    tgt = f[: -len(".append")]
-                    a, ta = self.expr(st.value.args[0])
-                    out.append(f"{pad}{self.lname(tgt)} := {self.lname(tgt)} ++ [{self.to_int(a, ta)}]")
-                    continue
-                raise Unsupported(f"statement call {f}")
-            if isinstance(st, ast.Assign):
-                if len(st.targets) != 1:
-                    raise Unsupported("multiple assignment")
-                t = st.targets[0]
-                d = dotted(t)
-                e, te = self.expr(st.value)
-                if d in self.mutates:
-                    out.append(f"{pad}{self.mutates[d][0]} := {self.coerce(e, te, self.mutates[d][1])}")
-                elif isinstance(t, ast.Name):
-                    out.append(f"{pad}{self.lname(t.id)} := {self.coerce(e, te, self.locals[t.id])}")
-                else:
-                    raise Unsupported(f"assignment target {ast.dump(t)[:40]}")
-                continue
-            if isinstance(st, ast.AugAssign):
-                d = dotted(st.target)
-                if type(st.op) not in BINOPS:
-                    raise Unsupported("augmented operator")
-                e, te = self.expr(st.value)
-                name, nt = self.mutates[d] if d in self.mutates else (self.lname(d), self.locals.get(d))
-                if nt != "int":
-                    raise Unsupported(f"augmented assignment to a {nt}")
-                out.append(f"{pad}{name} := ({name} {BINOPS[type(st.op)]} {self.to_int(e, te)})")
-                continue
-            if isinstance(st, ast.If):
-                c = self.to_bool(*self.expr(st.test))
-                out.append(f"{pad}if {c} then")
-                body_lines = self.stmts(st.body, ind + 1) or [f"{pad}  pure ()"]
-                out += body_lines
-                if st.orelse:
-                    out.append(f"{pad}else")
-                    out += self.stmts(st.orelse, ind + 1) or [f"{pad}  pure ()"]
-                continue
-            if isinstance(st, ast.For):
-                if st.orelse:
-                    raise Unsupported("for-else")
-                tgt = st.target.id if isinstance(st.target, ast.Name) else None
-                if tgt is None:
-                    raise Unsupported("for target")
-                assigned = any(isinstance(x, (ast.Assign, ast.AugAssign)) and dotted(x.targets[0] if isinstance(x, ast.Assign) else x.target) == tgt
-                               for s2 in st.body for x in ast.walk(s2))
-                it = st.iter
-                if isinstance(it, ast.Call) and dotted(it.func) == "range":
-                    args = [self.to_int(*self.expr(a)) for a in it.args]
-                    lo, hi = ("0", args[0]) if len(args) == 1 else (args[0], args[1])
-                    if len(args) > 2:
-                        raise Unsupported("range step")
-                    coll = f"[{lo}:{hi}]"
-                else:
-                    e, te = self.expr(it)
-                    if te != "list":
-                        raise Unsupported("for over a non-list")
-                    coll = e
-                if tgt == "_":
-                    out.append(f"{pad}for _ in {coll} do")
-                elif assigned:
-                    out.append(f"{pad}for {self.lname(tgt)}_it in {coll} do")
-                    out.append(f"{pad}  {self.lname(tgt)} := {self.lname(tgt)}_it")
-                else:
-                    out.append(f"{pad}for {self.lname(tgt)}_it in {coll} do")
-                    out.append(f"{pad}  {self.lname(tgt)} := {self.lname(tgt)}_it")
-                was, self.in_loop = self.in_loop, True
-                out += self.stmts(st.body, ind + 1) or [f"{pad}  pure ()"]
-                self.in_loop = was
-                continue
-            if isinstance(st, ast.Return):
-                out.append(f"{pad}return {self.ret_expr(st.value)}")
-                continue
-            if isinstance(st, ast.Pass):
-                continue
-            raise Unsupported(f"statement {type(st).__name__}")
-        return out
+        t = e[0]
+        if t == "letfold":
+            _, outs, ins, item, types, body, inits, coll, rest = e
+            n = len(outs)
+            ty = " × ".join(LEAN_TY[x] for x in types)
+            res = []
+            if n == 1:
+                sname, rname = names[ins[0]], names[outs[0]]
+            else:
+                sname, rname = names[("tuple", ins[0])], names[("tuple", outs[0])]
+                res.append(f"{pad}-- {sname}, {rname} = (" + ", ".join(self.hints[i] for i in ins) + ")")
+            blines = self.lines(body, names, ind + 2)
+            init = show(("tuple", inits), names)
+            head = f"{pad}let {rname} := List.foldl (fun ({sname} : {ty}) ({names[item]} : Nat) =>"
+            tail = f") {init if atomic(init) else '(' + init + ')'} {show(coll, names)}"
+            if len(blines) == 1 and len(head) + len(blines[0].strip()) + len(tail) < 150:
+                res.append(f"{head} {blines[0].strip()}{tail}")
+            else:
+                res += [head] + blines[:-1] + [blines[-1] + tail]
+            return res + self.lines(rest, names, ind)
+        if t == "ite" and (size(e) > 40 or self.has_fold(e)):
+            return ([f"{pad}if {show(e[1], names)} then"] + self.lines(e[2], names, ind + 1)
+                    + [f"{pad}else"] + self.lines(e[3], names, ind + 1))
+        return [pad + show(e, names)]
+
+    def has_fold(self, e):
+        return e[0] == "letfold" or (e[0] == "ite" and (self.has_fold(e[2]) or self.has_fold(e[3])))
+
+    def reserved(self):
+        words = {"s", "r", "fuel", "oof", "some", "none", "true", "false", "max", "min", "decide", "List", "Nat", "Bool",
+                 "Option", "end", "at", "from", "do", "then", "else", "fun", "let", "if", "in", "with", "match", "have", "show",
+                 "by", "open", "def", "theorem", "instance", "structure", "class", "where", "namespace", "section", "import",
+                 "mut", "for", "return", "Type", "Prop", "Sort", "using", "variable", "universe", "example", "local", "private"}
+        for n, _ in self.params:
+            words.add(n)
+        for m in (self.mapping, self.calls):
+            for lean, _ in m.values():
+                words.update(re.findall(r"[A-Za-z_]\w*", lean))
+        for lean, _, _ in self.callfns.values():
+            words.update(re.findall(r"[A-Za-z_]\w*", lean))
+        return words
 
     def translate(self):
         if isinstance(self.obj, _Missing):
             raise Unsupported(f"{self.obj.path} does not exist in the source")
         src = textwrap.dedent(inspect.getsource(unwrap_fn(self.obj)))
-        fn = ast.parse(src).body[0]
+        return self.render(self.term(ast.parse(src).body[0]))
+
+    def term(self, fn):
+        """the term of the function definition `fn` (an ast.FunctionDef); loops of `while True` go to self.aux"""
         if not isinstance(fn, (ast.FunctionDef,)):
             raise Unsupported("not a plain function")
-        # python parameters that are plain locals of the translation
+        if fn.args.vararg or fn.args.kwarg or fn.args.kwonlyargs or fn.args.defaults:
+            raise Unsupported("parameters other than plain positional ones")
+        env = {}
+        for py, (lean, t) in self.mutates.items():
+            env[py] = V(("const", lean + "0"), t, False)
+        for py, (lean, t) in self.mapping.items():
+            if "." not in py and py != "self":         # a python parameter: may be assigned
+                env[py] = V(("const", lean), t, False)
         for a in fn.args.args:
-            if a.arg != "self" and a.arg not in self.locals and not any(a.arg == k for k in self.mapping):
-                pass
-        self.collect_locals(fn.body)
-        head = f"def {self.name} " + " ".join(f"({n} : {t})" for n, t in self.params) + f" : {self.ret} := Id.run do"
-        lines = [head]
-        for py, (lean, _) in self.mutates.items():
-            lines.append(f"  let mut {lean} := {lean}0")
-        for py, t in self.locals.items():
-            if any(py == p for p, _ in self.params):
-                continue
-            lines.append(f"  let mut {self.lname(py)} := {self.default(t)}")
-        body = self.stmts(fn.body, 1)
-        ends_with_return = bool(fn.body) and isinstance(fn.body[-1], (ast.Return, ast.While))
-        lines += body
-        if not ends_with_return:
-            lines.append(f"  return {self.ret_expr(None)}")
-        return "\n\n".join(self.aux + ["\n".join(lines)])
+            if a.arg != "self" and a.arg not in env:
+                raise Unsupported(f"parameter {a.arg} is not configured")
+        self.order = self.assigned(fn.body)
+        self.order = [d for d in self.mutates if d in self.order] + [d for d in self.order if d not in self.mutates]
+        self.loop_targets = {x.target.id for x in ast.walk(fn) if isinstance(x, ast.For) and isinstance(x.target, ast.Name)}
+        self.appends = any(isinstance(x, ast.Call) and (dotted(x.func) or "").endswith(".append") for x in ast.walk(fn))
+
+        def end(e):
+            if self.mutates:
+                return self.final_state(e)
+            if self.ret_tag() in OPT_BASE:             # falling off the end answers None
+                return NONE
+            raise Unsupported("the function can end without a return")
+        ir = self.prune(self.block(fn.body, env, end))
+        if size(ir) > MAX_SIZE:
+            raise Unsupported("the translation is too large")
+        self.aux = [(head, ids, self.prune(body)) for head, ids, body in self.aux]
+        return ir
+
+    def render(self, ir):
+        """Lean text of the definition (and of its auxiliary loops)"""
+        out = []
+        taken = self.reserved()
+        for head, ids, body in self.aux:
+            names = {}
+            ub = uses(body)
+            for i in ids:
+                n = self.hints[i]
+                while n in taken:
+                    n += "'"
+                taken.add(n)
+                names[i] = n if i in ub else "_" + n
+            self.name_binders(body, taken, names)
+            out.append("\n".join(head + ["  | fuel + 1, " + ", ".join(names[i] for i in ids) + " =>"] + self.lines(body, names, 2)))
+        names = {}
+        self.name_binders(ir, taken, names)
+        head = f"def {self.name} " + " ".join(f"({n} : {t})" for n, t in self.params) + f" : {self.ret} :="
+        out.append("\n".join([head] + self.lines(ir, names, 1)))
+        return "\n\n".join(out)
 
 
 def generate(han):
@@ -517,7 +1105,8 @@ def generate(han):
         Fn("fcsChecksum", unwrap_fn(F.checksum), [("crcValue", "Nat")], "Nat", mapping={"self._crc_value": ("crcValue", "int")}),
         Fn("fcsIsGood", unwrap_fn(F.is_good), [("crcValue", "Nat")], "Bool", mapping={**tbl, "self._crc_value": ("crcValue", "int")}),
         Fn("fcsComputeChecksum", F.compute_checksum, [("data", "List Nat"), ("start", "Nat"), ("length", "Nat")], "Nat",
-           mapping={**tbl, "data": ("data", "list"), "start": ("start", "int"), "length": ("length", "int")}),
+           mapping={**tbl, "data": ("data", "list"), "start": ("start", "int"), "length": ("length", "int")},
+           callfns={"FastFrameCheckSequence16._next": ("fcsNext", ["int", "int"], "int")}),
         Fn("backoffFailure", mc.ExponentialBackOff.failure, [("delay0", "Nat")], "Nat", mutates={"self._delay": "delay"}),
         Fn("backoffReset", mc.ExponentialBackOff.reset, [("delay0", "Nat")], "Nat", mutates={"self._delay": "delay"}),
         Fn("backoffCurrent", unwrap_fn(mc.ExponentialBackOff.current_delay_sec), [("delay", "Nat"), ("maxDelay", "Nat")], "Nat",
@@ -572,7 +1161,7 @@ def generate(han):
         out = ["/- GENERATED by harness/pytrans.py from the current /repo working tree (mechanical translation of Python",
                "   function bodies). Do not edit. Props/*Gen.lean prove these equal to the hand-written models.",
                "   One file per property group, so that a change to one function cannot break another group's proofs. -/",
-               "import Amshan.Generated", "namespace Amshan.GenCode", ""]
+               "import Amshan.Generated", "set_option linter.unusedVariables false", "namespace Amshan.GenCode", ""]
         for fn in gfns:
             try:
                 out.append(fn.translate())
